@@ -461,6 +461,88 @@ theorem glob_everything (path : List Nat) : globMatch [42, 42] path = .ok (!path
 end SlocModel.Glob
 
 namespace SlocModel.Glob
+/-! ### alternation -/
+
+theorem mem_cross (xs ys : List (List FTok)) (f : List FTok) : f ∈ cross xs ys ↔ ∃ x ∈ xs, ∃ y ∈ ys, f = x ++ y := by
+  simp only [cross, List.mem_flatMap, List.mem_map]
+  constructor
+  · rintro ⟨x, hx, y, hy, rfl⟩; exact ⟨x, hx, y, hy, rfl⟩
+  · rintro ⟨x, hx, y, hy, rfl⟩; exact ⟨x, hx, y, hy, rfl⟩
+
+theorem mem_expToks_cons (t : Tok) (ts : List Tok) (f : List FTok) :
+    f ∈ expToks (t :: ts) ↔ ∃ x ∈ expTok t, ∃ y ∈ expToks ts, f = x ++ y := by
+  rw [expToks, mem_cross]
+
+theorem mem_expToks_append (a b : List Tok) (f : List FTok) :
+    f ∈ expToks (a ++ b) ↔ ∃ x ∈ expToks a, ∃ y ∈ expToks b, f = x ++ y := by
+  induction a generalizing f with
+  | nil => simp [expToks]
+  | cons t a ih =>
+    rw [List.cons_append, mem_expToks_cons]
+    constructor
+    · rintro ⟨x, hx, y, hy, rfl⟩
+      obtain ⟨y1, h1, y2, h2, rfl⟩ := (ih y).mp hy
+      exact ⟨x ++ y1, (mem_expToks_cons t a _).mpr ⟨x, hx, y1, h1, rfl⟩, y2, h2, by simp⟩
+    · rintro ⟨x, hx, y, hy, rfl⟩
+      obtain ⟨x1, h1, x2, h2, rfl⟩ := (mem_expToks_cons t a _).mp hx
+      exact ⟨x1, h1, x2 ++ y, (ih _).mpr ⟨x2, h2, y, hy, rfl⟩, by simp⟩
+
+theorem mem_expAlts (bs : List (List Tok)) (h : ∀ b ∈ bs, reEmptyToks b = false) (f : List FTok) :
+    f ∈ expAlts bs ↔ ∃ b ∈ bs, f ∈ expToks b := by
+  induction bs with
+  | nil => simp [expAlts]
+  | cons b bs ih =>
+    have hb := h b (by simp)
+    have ih := ih (fun b' hb' => h b' (by simp [hb']))
+    simp only [expAlts, hb, Bool.false_eq_true, if_false, List.mem_append, ih, List.mem_cons, exists_eq_or_imp]
+
+theorem reEmptyAlts_false (bs : List (List Tok)) (hne : bs ≠ []) (h : ∀ b ∈ bs, reEmptyToks b = false) :
+    reEmptyAlts bs = false := by
+  cases bs with
+  | nil => exact absurd rfl hne
+  | cons b bs => simp [reEmptyAlts, h b (by simp)]
+
+/-- `{b₁,…,bₙ}` inside a pattern means: one of the patterns obtained by putting a branch in its
+    place (branches whose regex is empty are the ones globset drops; they are excluded here) -/
+theorem alternation_distributes (pre post : List Tok) (bs : List (List Tok)) (hne : bs ≠ [])
+    (h : ∀ b ∈ bs, reEmptyToks b = false) (f : List FTok) :
+    f ∈ expToks (pre ++ [Tok.alts bs] ++ post) ↔ ∃ b ∈ bs, f ∈ expToks (pre ++ b ++ post) := by
+  have hexp : expTok (Tok.alts bs) = expAlts bs := by simp [expTok, reEmptyAlts_false bs hne h]
+  constructor
+  · intro hf
+    obtain ⟨x, hx, y, hy, rfl⟩ := (mem_expToks_append _ _ _).mp hf
+    obtain ⟨p, hp, a, ha, rfl⟩ := (mem_expToks_append _ _ _).mp hx
+    obtain ⟨a1, ha1, a2, ha2, rfl⟩ := (mem_expToks_cons _ _ _).mp ha
+    simp only [expToks, List.mem_singleton] at ha2
+    subst ha2
+    rw [hexp] at ha1
+    obtain ⟨b, hb, hab⟩ := (mem_expAlts bs h a1).mp ha1
+    refine ⟨b, hb, (mem_expToks_append _ _ _).mpr ⟨p ++ a1, (mem_expToks_append _ _ _).mpr ⟨p, hp, a1, hab, rfl⟩, y, hy, by simp⟩⟩
+  · rintro ⟨b, hb, hf⟩
+    obtain ⟨x, hx, y, hy, rfl⟩ := (mem_expToks_append _ _ _).mp hf
+    obtain ⟨p, hp, a, ha, rfl⟩ := (mem_expToks_append _ _ _).mp hx
+    refine (mem_expToks_append _ _ _).mpr ⟨p ++ a, (mem_expToks_append _ _ _).mpr ⟨p, hp, a, ?_, rfl⟩, y, hy, rfl⟩
+    refine (mem_expToks_cons _ _ _).mpr ⟨a, ?_, [], by simp [expToks], by simp⟩
+    rw [hexp]
+    exact (mem_expAlts bs h a).mpr ⟨b, hb, ha⟩
+
+/-- … and so does matching -/
+theorem alternation_matches (pre post : List Tok) (bs : List (List Tok)) (hne : bs ≠ [])
+    (h : ∀ b ∈ bs, reEmptyToks b = false) (path : List Nat) :
+    (expToks (pre ++ [Tok.alts bs] ++ post)).any (fun f => mF f path) =
+      bs.any (fun b => (expToks (pre ++ b ++ post)).any (fun f => mF f path)) := by
+  rw [Bool.eq_iff_iff]
+  simp only [List.any_eq_true]
+  constructor
+  · rintro ⟨f, hf, hm⟩
+    obtain ⟨b, hb, hfb⟩ := (alternation_distributes pre post bs hne h f).mp hf
+    exact ⟨b, hb, f, hfb, hm⟩
+  · rintro ⟨b, hb, f, hfb, hm⟩
+    exact ⟨f, (alternation_distributes pre post bs hne h f).mpr ⟨b, hb, hfb⟩, hm⟩
+
+end SlocModel.Glob
+
+namespace SlocModel.Glob
 /-! ### instances: the hypotheses above are satisfiable, and the shapes read as documented.
     (Evaluating `globMatch` on literals inside the kernel is avoided on purpose: the parser state
     is a structure threaded through every step and call-by-name reduction duplicates it; concrete
